@@ -391,7 +391,7 @@ def run_obligation(pid, obl, tier):
         f.write(" ".join(shlex.quote(c) for c in cmd) + "\n")
     timeout = obl.get("timeout", 600)
     if tier == "thorough":
-        timeout = obl.get("timeout_thorough", timeout * 3)
+        timeout = int(obl.get("timeout_thorough", timeout * 3) * float(os.environ.get("VP_TIMEOUT_SCALE_THOROUGH", "2")))
     else:
         # the per-obligation limits were measured on an idle 16 core machine; a
         # loaded or slower machine must not turn a passing obligation into an
